@@ -28,6 +28,8 @@ pub struct Call {
 	/// what a probe sound emitted (empty for effects)
 	pub frames: Vec<Frame>,
 	pub role: Role,
+	/// effects: the sample rate the effect was last told (init / on_change_sample_rate), 0 = never
+	pub told_rate: u32,
 }
 
 #[derive(Default)]
@@ -87,6 +89,7 @@ impl Sound for ProbeSound {
 			start,
 			frames,
 			role: monitor::role(),
+			told_rate: 0,
 		});
 	}
 
@@ -133,6 +136,7 @@ impl SoundData for ProbeSoundData {
 pub struct ProbeEffect {
 	pub gain: f32,
 	pub offset: (f32, f32),
+	pub told_rate: u32,
 	pub counter: u64,
 	pub shared: Arc<ProbeShared>,
 }
@@ -140,11 +144,13 @@ pub struct ProbeEffect {
 impl Effect for ProbeEffect {
 	fn init(&mut self, sample_rate: u32, _internal_buffer_size: usize) {
 		let _d = Disarm::new();
+		self.told_rate = sample_rate;
 		self.shared.init_rate.lock().unwrap().push(("init", sample_rate));
 	}
 
 	fn on_change_sample_rate(&mut self, sample_rate: u32) {
 		let _d = Disarm::new();
+		self.told_rate = sample_rate;
 		self.shared.init_rate.lock().unwrap().push(("change", sample_rate));
 	}
 
@@ -165,6 +171,7 @@ impl Effect for ProbeEffect {
 			start: self.counter,
 			frames: Vec::new(),
 			role: monitor::role(),
+			told_rate: self.told_rate,
 		});
 		self.counter += input.len() as u64;
 	}
@@ -192,6 +199,7 @@ impl EffectBuilder for ProbeEffectBuilder {
 			Box::new(ProbeEffect {
 				gain: self.gain,
 				offset: self.offset,
+				told_rate: 0,
 				counter: 0,
 				shared: shared.clone(),
 			}),
